@@ -1,2 +1,351 @@
 (* C05 - proofs. *)
-From TT Require Import Lib.Base Gen.Handlers Model.Run Spec.Run Spec.C05 Corr.C05 Proof.RunCore.
+From TT Require Import Lib.Base Gen.Handlers Model.Run Spec.Run Spec.C05 Corr.C05 Proof.RunCore Proof.RunExtra Proof.RunTable.
+
+(* ---------- comparisons ---------- *)
+Lemma ocontent_eqb_spec a b : ocontent_eqb a b = true <-> a = b.
+Proof.
+  destruct a as [x| | |x], b as [y| | |y]; simpl; split; intro H; try discriminate; try reflexivity.
+  - apply Nat.eqb_eq in H; congruence.
+  - injection H as ->; apply Nat.eqb_refl.
+  - apply (option_eqb_spec Nat.eqb Nat.eqb_eq) in H; congruence.
+  - injection H as ->. apply (option_eqb_spec Nat.eqb Nat.eqb_eq); reflexivity.
+Qed.
+Lemma odetail_eqb_spec a b : odetail_eqb a b = true <-> a = b.
+Proof. apply pair_eqb_spec; [apply Nat.eqb_eq | apply ocontent_eqb_spec]. Qed.
+Lemma call_eqb_spec a b : call_eqb a b = true <-> a = b.
+Proof. apply pair_eqb_spec; [apply Nat.eqb_eq | intros; apply cls_eqb_spec]. Qed.
+
+(* what the comparison of observations identifies: the details as a multiset of (base name, content) *)
+Definition obs_equiv (a b : obs) : Prop :=
+  o_outs a = o_outs b /\ (forall d, count d (o_details a) = count d (o_details b))
+  /\ o_calls a = o_calls b /\ o_late a = o_late b.
+
+Lemma count_notin d l : ~ In d l -> count d l = 0.
+Proof.
+  unfold count. induction l as [|x r IH]; simpl; intros H; [reflexivity|].
+  destruct (odetail_eqb d x) eqn:E.
+  - apply odetail_eqb_spec in E. subst. tauto.
+  - apply IH. tauto.
+Qed.
+
+Lemma odetail_dec (a b : odetail) : {a = b} + {a <> b}.
+Proof.
+  destruct (odetail_eqb a b) eqn:E; [left; now apply odetail_eqb_spec | right; intro H].
+  apply odetail_eqb_spec in H. congruence.
+Qed.
+
+Lemma same_details_spec a b : same_details a b = true <-> forall d, count d a = count d b.
+Proof.
+  unfold same_details. rewrite forallb_forall. split.
+  - intros H d. destruct (in_dec odetail_dec d (a ++ b)) as [I|N].
+    + apply Nat.eqb_eq. exact (H d I).
+    + rewrite !count_notin; [reflexivity | |]; intro; apply N; apply in_or_app; tauto.
+  - intros H d _. apply Nat.eqb_eq. apply H.
+Qed.
+
+Lemma obs_eqb_spec a b : obs_eqb a b = true <-> obs_equiv a b.
+Proof.
+  unfold obs_eqb, obs_equiv. rewrite !andb_true_iff, !Nat.eqb_eq, same_details_spec,
+    (list_eqb_spec call_eqb call_eqb_spec). tauto.
+Qed.
+
+(* ---------- the executable statement implies the readable one ---------- *)
+Theorem spec_okb_sound i o : spec_okb i o = true -> Spec i o.
+Proof.
+  unfold spec_okb, Spec. cbv zeta. rewrite !andb_true_iff, !Nat.eqb_eq, forallb_forall, !Nat.leb_le,
+    (list_eqb_spec call_eqb call_eqb_spec).
+  intros [[[[[H1 H2] H3] H4] H5] H6]. repeat split; try assumption.
+  intros d Hd. apply Nat.leb_le. exact (H2 d Hd).
+Qed.
+
+(* ------------------------------------------------------------------ *)
+(* names                                                                *)
+(* ------------------------------------------------------------------ *)
+Lemma dname_eqb_spec a b : dname_eqb a b = true <-> a = b.
+Proof.
+  destruct a as [a1 a2], b as [b1 b2]; unfold dname_eqb; cbn [fst snd].
+  rewrite andb_true_iff, Nat.eqb_eq, (list_eqb_spec Nat.eqb Nat.eqb_eq).
+  split; [intros [-> ->]; reflexivity | intros H; injection H; auto].
+Qed.
+Lemma dname_eqb_refl a : dname_eqb a a = true.
+Proof. now apply dname_eqb_spec. Qed.
+Lemma dname_eqb_neq a b : a <> b -> dname_eqb a b = false.
+Proof. intros H. destruct (dname_eqb a b) eqn:E; [apply dname_eqb_spec in E; contradiction | reflexivity]. Qed.
+Lemma dname_eqb_base a b : fst a <> fst b -> dname_eqb a b = false.
+Proof. intros H. apply dname_eqb_neq. congruence. Qed.
+
+Lemma dmem_in n d : dmem n d = true <-> In n (map fst d).
+Proof.
+  induction d as [|[m c] r IH]; simpl; [split; [discriminate | tauto]|].
+  rewrite orb_true_iff, IH, dname_eqb_spec. split; intros [H|H]; auto.
+Qed.
+Lemma dput_fresh n c d : dmem n d = false -> dput n c d = d ++ [(n, c)].
+Proof.
+  induction d as [|[m x] r IH]; simpl; [reflexivity|]. intros H. apply orb_false_iff in H as [H1 H2].
+  rewrite H1, (IH H2). reflexivity.
+Qed.
+
+(* ------------------------------------------------------------------ *)
+(* C05_unique_fresh: the unique-name loops return a name that is not taken (pigeonhole) *)
+(* ------------------------------------------------------------------ *)
+Lemma suffixed_inj n j k : suffixed n j = suffixed n k -> j = k.
+Proof. unfold suffixed. intros H. injection H as H. apply app_inj_tail in H. tauto. Qed.
+Lemma suffixed_longer n k : length (snd (suffixed n k)) = S (length (snd n)).
+Proof. unfold suffixed. cbn [snd]. rewrite app_length. simpl. lia. Qed.
+Lemma suffixed_neq n k : n <> suffixed n k.
+Proof. intros H. apply (f_equal (fun x => length (snd x))) in H. rewrite suffixed_longer in H. lia. Qed.
+
+(* addDetailUniqueName / gather_details: [seen] are candidates already found taken *)
+Lemma first_free_fresh n d : forall fuel k seen,
+  NoDup seen -> incl seen (map fst d) ->
+  (forall m j, In m seen -> k <= j -> m <> suffixed n j) ->
+  length d < length seen + fuel ->
+  dmem (first_free n d k fuel) d = false.
+Proof.
+  induction fuel as [|f IH]; intros k seen ND INC DIS LEN.
+  - exfalso. pose proof (NoDup_incl_length ND INC) as H. rewrite map_length in H. lia.
+  - cbn [first_free]. destruct (dmem (suffixed n k) d) eqn:E; [|exact E].
+    apply (IH (S k) (suffixed n k :: seen)).
+    + constructor; [|exact ND]. intro HIn. exact (DIS _ k HIn (le_n _) eq_refl).
+    + intros m [<-|Hm]; [apply dmem_in; exact E | apply INC; exact Hm].
+    + intros m j [<-|Hm] Hj; [intro H; apply suffixed_inj in H; lia | apply DIS; [exact Hm | lia]].
+    + cbn [length]. lia.
+Qed.
+Lemma first_free_base n d : forall fuel k, fst (first_free n d k fuel) = fst n.
+Proof. induction fuel as [|f IH]; intros k; cbn [first_free]; [reflexivity|]. destruct (dmem _ d); [apply IH | reflexivity]. Qed.
+
+Theorem unique_name_fresh n d : dmem (unique_name n d) d = false /\ fst (unique_name n d) = fst n.
+Proof.
+  unfold unique_name. destruct (dmem n d) eqn:E; [|split; [exact E | reflexivity]].
+  split; [|apply first_free_base].
+  apply (first_free_fresh n d (length d) 1 [n]).
+  - constructor; [intros [] | constructor].
+  - intros m [<-|[]]. now apply dmem_in.
+  - intros m j [<-|[]] _. apply suffixed_neq.
+  - cbn [length]. lia.
+Qed.
+
+(* _report_traceback: the label accumulates, so every candidate is longer than the ones before *)
+Definition tb_next (id : nat) (lab : dname) : dname := match id with 0 => lab | _ => suffixed lab id end.
+Lemma tb_label_eq fuel id lab d :
+  tb_label fuel id lab d
+  = if dmem (tb_next id lab) d
+    then match fuel with 0 => (tb_next id lab, S id) | S f => tb_label f (S id) (tb_next id lab) d end
+    else (tb_next id lab, S id).
+Proof. destruct fuel; reflexivity. Qed.
+
+Lemma tb_label_fresh d : forall fuel id lab seen,
+  NoDup seen -> incl seen (map fst d) ->
+  Forall (fun m => length (snd m) < length (snd (tb_next id lab))) seen ->
+  length d <= length seen + fuel ->
+  dmem (fst (tb_label fuel id lab d)) d = false.
+Proof.
+  induction fuel as [|f IH]; intros id lab seen ND INC LT LEN; rewrite tb_label_eq;
+    destruct (dmem (tb_next id lab) d) eqn:E; try exact E.
+  - exfalso.
+    assert (ND' : NoDup (tb_next id lab :: seen)).
+    { constructor; [|exact ND]. intro HIn. rewrite Forall_forall in LT. specialize (LT _ HIn). lia. }
+    assert (INC' : incl (tb_next id lab :: seen) (map fst d)).
+    { intros m [<-|Hm]; [now apply dmem_in | now apply INC]. }
+    pose proof (NoDup_incl_length ND' INC') as H. rewrite map_length in H. cbn [length] in H. unfold dname in *. lia.
+  - apply (IH (S id) (tb_next id lab) (tb_next id lab :: seen)).
+    + constructor; [|exact ND]. intro HIn. rewrite Forall_forall in LT. specialize (LT _ HIn). lia.
+    + intros m [<-|Hm]; [now apply dmem_in | now apply INC].
+    + cbn [tb_next]. rewrite suffixed_longer. constructor; [lia|].
+      eapply Forall_impl; [|exact LT]. cbv beta. intros; lia.
+    + cbn [length]. lia.
+Qed.
+Lemma tb_label_base d : forall fuel id lab, fst (fst (tb_label fuel id lab d)) = fst lab.
+Proof.
+  assert (B : forall id lab, fst (tb_next id lab) = fst lab) by (intros [|id] lab; reflexivity).
+  induction fuel as [|f IH]; intros id lab; rewrite tb_label_eq; destruct (dmem _ d); cbn [fst]; rewrite ?IH; apply B.
+Qed.
+
+Theorem tb_label_spec d id :
+  dmem (fst (tb_label (length d) id n_traceback d)) d = false
+  /\ fst (fst (tb_label (length d) id n_traceback d)) = fst n_traceback.
+Proof.
+  split; [|apply tb_label_base].
+  apply (tb_label_fresh d (length d) id n_traceback []).
+  - constructor.
+  - intros m Hm. destruct Hm.
+  - constructor.
+  - exact (le_n _).
+Qed.
+
+(* ------------------------------------------------------------------ *)
+(* the dict of the machine against the list the statement expects       *)
+(* ------------------------------------------------------------------ *)
+Definition is_ctb (c : content) : bool := match c with CTb => true | _ => false end.
+
+(* [R G k xl dl]: the dict [dl] is the expected list [xl], in order, with [k] generated traceback
+   entries in between; an entry the test attached has its exact name, a generated one a name
+   with the expected base; the bases of all generated names are in [G] *)
+Inductive R (G : list nat) : nat -> list xentry -> details -> Prop :=
+| R_nil : R G 0 [] []
+| R_tb m xl dl k : In (fst m) G -> R G k xl dl -> R G (S k) xl ((m, CTb) :: dl)
+| R_user n c xl dl k : is_ctb c = false -> R G k xl dl -> R G k ((Some n, fst n, c) :: xl) ((n, c) :: dl)
+| R_gen m c xl dl k : In (fst m) G -> is_ctb c = false -> R G k xl dl ->
+                      R G k ((None, fst m, c) :: xl) ((m, c) :: dl).
+
+Lemma R_mono G G' k xl dl : incl G G' -> R G k xl dl -> R G' k xl dl.
+Proof. intros I H. induction H; constructor; auto. Qed.
+
+Lemma R_app G k1 a b : R G k1 a b -> forall k2 c d, R G k2 c d -> R G (k1 + k2) (a ++ c) (b ++ d).
+Proof. induction 1; intros k2 c' d' H'; cbn [app plus]; [exact H' | constructor; auto ..]. Qed.
+
+(* the test (or the skip handler) attaches a detail under a name whose base no generated name has *)
+Lemma R_put G k xl dl n c :
+  R G k xl dl -> ~ In (fst n) G -> is_ctb c = false -> R G k (kput n c xl) (dput n c dl).
+Proof.
+  intros H Hn Hc. induction H as [| m xl dl k Hm H IH | n0 c0 xl dl k Hc0 H IH | m c0 xl dl k Hm Hc0 H IH].
+  - cbn. apply R_user; [exact Hc | constructor].
+  - cbn [dput]. rewrite dname_eqb_base by (intro E; apply Hn; rewrite E; exact Hm). apply R_tb; assumption.
+  - cbn [kput dput]. destruct (dname_eqb n n0); constructor; assumption.
+  - cbn [kput dput]. rewrite dname_eqb_base by (intro E; apply Hn; rewrite E; exact Hm). apply R_gen; assumption.
+Qed.
+
+(* a generated detail goes in under a name that is not taken *)
+Lemma R_gen_append G k xl dl m c :
+  R G k xl dl -> dmem m dl = false -> In (fst m) G -> is_ctb c = false ->
+  R G k (xl ++ [(None, fst m, c)]) (dput m c dl).
+Proof.
+  intros H F I C. rewrite (dput_fresh _ _ _ F). rewrite <- (Nat.add_0_r k).
+  apply R_app; [exact H|]. apply R_gen; [exact I | exact C | constructor].
+Qed.
+Lemma R_tb_append G k xl dl m :
+  R G k xl dl -> dmem m dl = false -> In (fst m) G -> R G (k + 1) xl (dput m CTb dl).
+Proof.
+  intros H F I. rewrite (dput_fresh _ _ _ F). rewrite <- (app_nil_r xl).
+  apply R_app; [exact H|]. apply R_tb; [exact I | constructor].
+Qed.
+
+(* what the result reads off the dict *)
+Definition out_x (f : content -> ocontent) (e : xentry) : odetail := (snd (fst e), f (snd e)).
+Definition out_d (f : content -> ocontent) (nc : dname * content) : odetail := (fst (fst nc), f (snd nc)).
+
+Lemma count_cons d a l : count d (a :: l) = (if odetail_eqb d a then 1 else 0) + count d l.
+Proof. unfold count. cbn [filter]. destruct (odetail_eqb d a); reflexivity. Qed.
+
+(* every expected entry is in the dict as often as expected *)
+Lemma R_count G k xl dl f : R G k xl dl -> forall d, count d (map (out_x f) xl) <= count d (map (out_d f) dl).
+Proof.
+  induction 1; intros d; cbn [map]; rewrite ?count_cons; unfold out_x, out_d in *; cbn [fst snd] in *;
+    try specialize (IHR d); lia.
+Qed.
+
+Lemma is_tb_out_d D nc : is_tb (out_d (dresolve D) nc) = is_ctb (snd nc).
+Proof. destruct nc as [n c]. destruct c; reflexivity. Qed.
+(* ... and exactly the generated tracebacks are traceback entries *)
+Lemma R_tbs G k xl dl D : R G k xl dl -> length (filter is_tb (map (out_d (dresolve D)) dl)) = k.
+Proof.
+  induction 1; cbn [map filter]; rewrite ?is_tb_out_d; cbn [snd is_ctb]; rewrite ?H, ?H0; cbn [length]; congruence.
+Qed.
+
+(* ------------------------------------------------------------------ *)
+(* the simulation: the statement's reading of the events against the machine's *)
+(* ------------------------------------------------------------------ *)
+Record Inv (x : xs) (d : dst) (k : nat) : Prop := {
+  iv_cells : x_cells x = d_cells d;
+  iv_onexc : x_onexc x = d_onexc d;
+  iv_calls : x_calls x = d_calls d;
+  iv_R : R (x_gen x) k (x_list x) (d_dets d);
+  iv_res : ~ In (fst n_reason) (x_gen x) }.
+
+(* the names the event brings along are not the reserved one *)
+Definition ev_wf (e : devent) : bool :=
+  match e with DUser n _ | DMis n _ | DFx n _ => wf_name n | _ => true end.
+(* the machine generates a traceback detail *)
+Definition tbev (e : devent) : bool :=
+  match e with DTb => true | DExc c => negb (no_traceback c) | _ => false end.
+
+Lemma d_tb_spec d :
+  exists lab, d_dets (d_tb d) = dput lab CTb (d_dets d) /\ dmem lab (d_dets d) = false /\ fst lab = fst n_traceback
+              /\ d_cells (d_tb d) = d_cells d /\ d_onexc (d_tb d) = d_onexc d /\ d_calls (d_tb d) = d_calls d.
+Proof.
+  unfold d_tb. destruct (tb_label_spec (d_dets d) (d_tbgen d)) as [F B].
+  destruct (tb_label _ _ _ _) as [lab nxt]. exists lab. cbn [fst d_dets d_cells d_onexc d_calls] in *. repeat split; first [assumption | reflexivity].
+Qed.
+
+Lemma wf_name_neq n : wf_name n = true -> fst n <> fst n_reason.
+Proof. unfold wf_name. intros H E. rewrite E, Nat.eqb_refl in H. discriminate. Qed.
+
+Lemma inv_gen x d k n c c' :
+  Inv x d k -> wf_name n = true -> is_ctb c = false -> c = c' ->
+  Inv (xgen (fst n) c x) (d_put (unique_name n (d_dets d)) c' d) k.
+Proof.
+  intros [I1 I2 I3 I4 I5] W C <-. destruct (unique_name_fresh n (d_dets d)) as [F B].
+  constructor; cbn [xgen x_cells x_onexc x_calls x_gen x_list d_put d_cells d_onexc d_calls d_dets]; try assumption.
+  - rewrite <- B. apply R_gen_append; [|exact F | rewrite B; left; reflexivity | exact C].
+    eapply R_mono; [|exact I4]. intros ? ?; right; assumption.
+  - intros [E|E]; [exact (wf_name_neq n W E) | exact (I5 E)].
+Qed.
+
+Lemma inv_tb x d k x' :
+  Inv x d k -> x_cells x' = x_cells x -> x_onexc x' = x_onexc x -> x_calls x' = x_calls x ->
+  x_list x' = x_list x -> x_gen x' = fst n_traceback :: x_gen x ->
+  Inv x' (d_tb d) (k + 1).
+Proof.
+  intros [I1 I2 I3 I4 I5] E1 E2 E3 E4 E5. destruct (d_tb_spec d) as (lab & T1 & T2 & T3 & T4 & T5 & T6).
+  constructor; rewrite ?E1, ?E2, ?E3, ?E4, ?E5, ?T1, ?T4, ?T5, ?T6; try assumption.
+  - apply R_tb_append; [|exact T2 | rewrite T3; left; reflexivity].
+    eapply R_mono; [|exact I4]. intros ? ?; right; assumption.
+  - intros [E|E]; [discriminate | exact (I5 E)].
+Qed.
+
+Lemma inv_step x d k e :
+  Inv x d k -> ev_wf e = true -> x_f14 (xstep x e) = false ->
+  Inv (xstep x e) (papply d e) (k + (if tbev e then 1 else 0)).
+Proof.
+  intros I W F. destruct e as [n loc | loc v | n loc | | n loc | | r | h | c]; cbn [tbev]; rewrite ?Nat.add_0_r.
+  - (* the test attaches a detail *)
+    destruct I as [I1 I2 I3 I4 I5]. cbn [xstep x_f14] in F. apply orb_false_iff in F as [_ F].
+    constructor; cbn [xstep papply d_put x_cells x_onexc x_calls x_gen x_list d_cells d_onexc d_calls d_dets]; try assumption.
+    apply R_put; [exact I4 | | reflexivity].
+    intros HIn. apply (existsb_exists (Nat.eqb (fst n))) in F; [discriminate|]. exists (fst n).
+    split; [exact HIn | apply Nat.eqb_refl].
+  - destruct I as [I1 I2 I3 I4 I5].
+    constructor; cbn [xstep papply x_cells x_onexc x_calls x_gen x_list d_cells d_onexc d_calls d_dets]; try assumption.
+    now rewrite I1.
+  - apply inv_gen; [exact I | exact W | reflexivity | reflexivity].
+  - apply (inv_gen x d k n_failed_expectation CStack CStack I); reflexivity.
+  - cbn [xstep papply]. apply inv_gen; [exact I | exact W | reflexivity|].
+    unfold xcell, dcell. now rewrite (iv_cells _ _ _ I).
+  - apply (inv_tb x d k _ I); reflexivity.
+  - destruct I as [I1 I2 I3 I4 I5].
+    constructor; cbn [xstep papply d_put x_cells x_onexc x_calls x_gen x_list d_cells d_onexc d_calls d_dets]; try assumption.
+    apply R_put; [exact I4 | exact I5 | reflexivity].
+  - destruct I as [I1 I2 I3 I4 I5].
+    constructor; cbn [xstep papply x_cells x_onexc x_calls x_gen x_list d_cells d_onexc d_calls d_dets]; try assumption.
+    now rewrite I2.
+  - (* an exception is caught: traceback unless it is a signal, then the handlers *)
+    cbn [papply]. destruct (no_traceback c); cbn [negb]; rewrite ?Nat.add_0_r.
+    + destruct I as [I1 I2 I3 I4 I5].
+      constructor; cbn [xstep x_cells x_onexc x_calls x_gen x_list d_cells d_onexc d_calls d_dets]; try assumption.
+      * now rewrite I2, I3.
+      * eapply R_mono; [|exact I4]. intros ? ?; right; assumption.
+      * intros [E|E]; [discriminate | exact (I5 E)].
+    + assert (T : Inv {| x_list := x_list x; x_cells := x_cells x; x_gen := fst n_traceback :: x_gen x;
+                         x_f14 := x_f14 x; x_onexc := x_onexc x; x_calls := x_calls x |} (d_tb d) (k + 1))
+        by (apply (inv_tb x d k _ I); reflexivity).
+      destruct T as [T1 T2 T3 T4 T5]. cbn [x_cells x_onexc x_calls x_gen x_list] in *.
+      constructor; cbn [xstep x_cells x_onexc x_calls x_gen x_list d_cells d_onexc d_calls d_dets]; try assumption.
+      now rewrite T2, T3.
+Qed.
+
+Lemma f14_step x e : x_f14 (xstep x e) = false -> x_f14 x = false.
+Proof. destruct e; cbn [xstep x_f14 xgen xmark]; try tauto. intros H. now apply orb_false_iff in H. Qed.
+Lemma f14_mono l : forall x, x_f14 (fold_left xstep l x) = false -> x_f14 x = false.
+Proof. induction l as [|e r IH]; intros x H; [exact H|]. apply (f14_step x e). apply IH. exact H. Qed.
+
+Lemma inv_run l : forall x d k,
+  Inv x d k -> Forall (fun e => ev_wf e = true) l -> x_f14 (fold_left xstep l x) = false ->
+  Inv (fold_left xstep l x) (prun l d) (k + length (filter tbev l)).
+Proof.
+  induction l as [|e r IH]; intros x d k I W F; cbn [fold_left prun filter length]; [now rewrite Nat.add_0_r|].
+  inversion W as [|? ? We Wr]; subst. cbn [fold_left] in F.
+  pose proof (inv_step x d k e I We (f14_mono r _ F)) as I'.
+  specialize (IH _ _ _ I' Wr F). unfold prun in IH.
+  destruct (tbev e); cbn [length]; [|rewrite Nat.add_0_r in IH; exact IH].
+  replace (k + S (length (filter tbev r))) with (k + 1 + length (filter tbev r)) by lia. exact IH.
+Qed.
